@@ -35,10 +35,13 @@ def run(tier):
     wd = vlib.workdir(PROP)
     vlib.build(["hadv"])
     quick = tier == "quick"
-    # a dealer whose polynomial has the wrong degree but whose shares are consistent with it (state-level deviation)
+    # state-level dealers: a polynomial of the wrong degree with shares consistent with it (plus / minus), and a
+    # correct polynomial of which one honest party is sent the share of another evaluation point (0 = the dealer's
+    # secret, or a peer's point), with the recipient header kept or emptied (eval*)
     dealers = [{"kind": "dealercheat", "proto": p, "n": 3, "t": 1, "byz": b, "alt": a, "sched": vlib.seed() * 5 + i}
                for i, (p, b, a) in enumerate((p, b, a) for p in ("frost-keygen", "frost-refresh", "taproot-keygen", "taproot-refresh")
-                                             for b in ("a", "b", "c") for a in ("plus", "minus"))]
+                                             for b in ("a", "b", "c")
+                                             for a in ("plus", "minus", "eval0", "eval0-empty", "evalk", "evalk-empty"))]
     st = adv.run_family(rep, wd, plan(quick), PROP, vlib.seed(), {"C03"}, shards=14, extra_scen=dealers)
     rep.cov.update({"distinct_nontrivial": st["distinct"], "states": st["states"], "transitions": st["transitions"],
                     "traces_validated_against_impl": st["traces"], "trace_lines": st["lines"], "catalogue_cases": st["catalogue"],
@@ -46,5 +49,5 @@ def run(tier):
                     "rule": "FaultCat.tla (TLC) enumerates message slot x field of the decoded real message x alteration x cheater x recipients; each case is run on the real protocol with one real party whose emitted message is altered at CBOR level; non-trivial = the altered message was delivered to an honest party; every honest API call is validated against Handler.tla (invariant WrongNeverAccepted: no party is done with a result the independent verifier rejects) and key material of honest finishers must be mutually consistent"})
     if st["reached"] < 2:
         raise vlib.Inconclusive("the fault scenarios did not reach the code under test")
-    rep.assumptions += ["one deviating participant; deviations are alterations of real messages (field level), not strategies that need the cheater's secret state"]
+    rep.assumptions += ["one deviating participant; deviations are alterations of real messages (field level), plus two state-level dealer strategies (wrong degree, share of another evaluation point)"]
     return rep.finish()
